@@ -300,11 +300,20 @@ def main():
             if name not in allow_partial and not tcfg.get("unsupported_ok"):
                 inconclusive.append("%s: not encodable: %s" % (name, u["unsupported"][:200]))
         if u.get("unknown"):
-            inconclusive.append("%s: %d solver unknowns" % (name, u["unknown"]))
+            if tier == "thorough" and tcfg.get("best_effort", True):
+                # thorough tier: a branch no back end could decide within its limits is
+                # not explored and not claimed; the unit is listed as partially explored
+                partial.append({"unit": name, "why": "%d branch or assertion conditions undecided by all solver back ends within their limits: those branches were not explored and nothing is claimed for them" % u["unknown"], "paths": u["paths"]})
+            else:
+                inconclusive.append("%s: %d solver unknowns" % (name, u["unknown"]))
         if u.get("truncated"):
             partial.append({"unit": name, "why": u["truncated"], "paths": u["paths"]})
             capped = u["truncated"].startswith("path cap") or u["truncated"].startswith("unwinding") or u["truncated"].startswith("step budget") or u["truncated"].startswith("call depth")
-            if not (capped and (tcfg.get("partial_ok_all") or name in allow_partial)):
+            if tier == "thorough" and tcfg.get("best_effort", True) and u["truncated"].startswith("time budget"):
+                continue_ok = True
+            else:
+                continue_ok = False
+            if not continue_ok and not (capped and (tcfg.get("partial_ok_all") or name in allow_partial)):
                 inconclusive.append("%s: exploration truncated: %s" % (name, u["truncated"]))
         for lbl in tcfg.get("must_reach", {}).get(name, cfg.get("must_reach_all", [])):
             if not u.get("unsupported") and u["reached"].get(lbl, 0) == 0 and not u.get("violations"):
